@@ -49,12 +49,16 @@ CLAIMS = {
  "C14": ("ParseReader and AddTypes are proved to put back the type table and the directive table they found whenever they return an error, on every error path (syntax, duplicate, undefined reference, failed extension, validation, failing reader); the working copy they load into (typeList.dup) is proved to be a new object with its own list array and its own name index holding exactly the members of the source, and the source is not written, so the restored tables are the ones that were there before; AddTypes also leaves root.schema alone.",
          "root.schema after a failing ParseReader is a recorded known finding; writes by Extend into member lists of type objects shared between the saved and the working table (a failed extension) are not covered: the contracts decide the tables, not every object reachable from them; 'a later valid load behaves as if the failed one never happened' follows only for the tables",
          "4 C14"),
+ "C07": ("The JSON writer is proved against a reference lexer for JSON text (RFC 8259) that runs over the ghost output of the io.Writer: writeString emits, for every Go string, exactly one well-formed JSON string token that decodes back to the string's characters (escapes, \\u00XX, raw UTF-8; invalid bytes as U+FFFD); writeValue and writeMap never emit a byte that JSON does not allow outside a string (structural characters, white space, number and literal characters only), object keys go through the same escaping, array elements are always separated by a comma in JSON mode. Envelope: ResolveReader returns a map whose keys are only data and errors and that has at least one of them, errors is a list; formOneErrorResult emits only message / locations / path / extensions, message is a string, locations only with line >= 1 and column >= 1.",
+         "lexical, not grammatical, validity of the text outside strings (a number such as 1e-07.0 would pass); a failing writer is excluded (ghost count of write errors); strconv / time formatting results are trusted to consist of number / RFC 3339 characters; that a location lies on the token's line is not decided; non-emptiness of errors for wrapped error groups is outside the errors.As model",
+         "4 C07"),
+ "C18": ("JSON string writing: for every string content (control characters, quotes, backslashes, any UTF-8, invalid bytes) writeString's output is one JSON string token that the reference JSON decoder reads back as the same character sequence (proved for all strings by a loop invariant over the decoded prefix); elementSep gives a comma between JSON elements.",
+         "the SDL direction (parse(write(v)) == v through ggql's own reader), separators of the tight SDL form and number round trips are not under contract; whole-value structure is covered only lexically (see C07)",
+         "4 C18"),
 }
 NA = {
  "C02": "relational across three differently backed roots; the part that differs between the strategies (regField lookup, reflect.Value.Call, struct field reads) is reflect semantics for which the verifier has only trusted stubs, so 'same response' cannot be stated as a contract on one call (DESIGN.md section 11.6)",
- "C07": "writer / envelope contracts not reached yet (build in progress; DESIGN.md section 11.3)",
  "C15": "lexical pairing contracts depend on the C18 writer contracts, not reached yet (DESIGN.md section 11.3)",
- "C18": "writer / reader step contracts not reached yet (build in progress; DESIGN.md section 11.3)",
  "C16": "relational over orderings/partitions of whole loads: a function contract speaks about one call, and deriving the relation needs a functional grammar specification of the whole single-pass SDL parser (DESIGN.md section 4, C16)",
 }
 checks=[]
@@ -72,7 +76,7 @@ for i in ids:
 hook=subprocess.run(["git","-C","/repo","log","--format=%H","--grep=^verif hook"],capture_output=True,text=True).stdout.split()
 m={"version":1,
  "setup_cmd":"cd /verif/govc && GOFLAGS=-mod=mod GOPROXY=off GOSUMDB=off GOTOOLCHAIN=local go build -o /verif/bin/govc .",
- "hooks":{"guard":"verif","enable":"go/packages loads /repo/pkg/ggql with -tags=verif; the only guarded file is pkg/ggql/verif_contracts.go (//go:build verif, comments only)","baseline_off_cmd":"cd /repo && GOFLAGS=-mod=mod GOPROXY=off GOSUMDB=off go test -vet=off -count=1 ./...","source_commits":hook,"add_only":True},
+ "hooks":{"guard":"verif","enable":"go/packages loads /repo/pkg/ggql with -tags=verif; the guarded files are pkg/ggql/verif_contracts*.go (//go:build verif; comments only, plus one ghost type declaration vSeq that has no values at run time)","baseline_off_cmd":"cd /repo && GOFLAGS=-mod=mod GOPROXY=off GOSUMDB=off go test -vet=off -count=1 ./...","source_commits":hook,"add_only":True},
  "engines":[{"name":"govc","path":"/verif/govc","serves_properties":sorted(CLAIMS),"kind_free_text":"contract-based deductive verifier for Go written for this task: VC generation over go/ssa (x/tools v0.29.0) of /repo's working tree, contracts in //@ comments, obligations discharged by z3-new 5.1.0, z3 4.8.12, cvc5 1.0.3"}],
  "checks":checks,"not_applicable":na,
  "notes":"Every check reloads /repo's working tree. Known findings: /verif/known_findings.json. Exit 2 = infrastructure error (claims nothing)."}
